@@ -134,3 +134,88 @@ func housekeepingStarvation(rec *vr.Rec, reps int) {
 }
 
 var _ = vr.Seed
+
+// burstOrder: requests of ONE peer are handled in the order they arrived - also when that peer sends a burst while its
+// handler is still busy with the first one and more datagrams are outstanding than the connection's receive queue holds.
+// (Loss is allowed on a datagram socket; what was handled must be in increasing order.)
+func burstOrder(rec *vr.Rec, reps int) {
+	for rep := 0; rep < reps; rep++ {
+		n := 60 + 70*(rep%8)
+		c := map[string]any{"scenario": "burst of one peer while its handler is busy", "transport": "udp", "datagrams": n}
+		gate := make(chan struct{})
+		var once sync.Once
+		var mu sync.Mutex
+		var order []int
+		r := mux.NewRouter()
+		_ = r.Handle("/seq", mux.HandlerFunc(func(w mux.ResponseWriter, m *mux.Message) {
+			tok := m.Token()
+			if len(tok) != 2 {
+				return
+			}
+			k := int(tok[0])<<8 | int(tok[1])
+			if k == 0 {
+				<-gate
+			}
+			mu.Lock()
+			order = append(order, k)
+			mu.Unlock()
+		}))
+		srv, err := netenv.Start("udp", netenv.ServerOpts{Router: r})
+		if err != nil {
+			rec.Inconclusive("burst order: " + err.Error())
+			return
+		}
+		pc, derr := net.Dial("udp4", srv.Addr)
+		if derr != nil {
+			srv.Stop()
+			continue
+		}
+		for k := 0; k < n; k++ {
+			_, _ = pc.Write(ref.EncodeUDP(ref.Msg{Type: 1, Code: 1, MID: uint16(1000 + k), Token: []byte{byte(k >> 8), byte(k)}, Opts: []ref.Opt{{ID: 11, Val: []byte("seq")}}}))
+			if k == 0 {
+				time.Sleep(20 * time.Millisecond) // the first one is in its handler before the burst starts
+			}
+		}
+		time.Sleep(100 * time.Millisecond)
+		once.Do(func() { close(gate) })
+		// everything that is going to be handled has been handled when the count stops growing
+		last, stable := -1, 0
+		for i := 0; i < 400 && stable < 10; i++ {
+			time.Sleep(10 * time.Millisecond)
+			mu.Lock()
+			cur := len(order)
+			mu.Unlock()
+			if cur == last {
+				stable++
+			} else {
+				last, stable = cur, 0
+			}
+		}
+		mu.Lock()
+		got := append([]int(nil), order...)
+		mu.Unlock()
+		rec.Eval(fmt.Sprintf("burst-order|%d|%d", n, rep))
+		rec.Count("burst_order_cases", 1)
+		rec.Count("burst_requests_handled", int64(len(got)))
+		for i := 1; i < len(got); i++ {
+			if got[i] <= got[i-1] {
+				lo := i - 3
+				if lo < 0 {
+					lo = 0
+				}
+				hi := i + 3
+				if hi > len(got) {
+					hi = len(got)
+				}
+				rec.Violation("C10/udp/peer-requests-handled-out-of-arrival-order", fmt.Sprintf("request %d was handled after request %d (handled so far: %d of %d sent; around the inversion: %v)", got[i], got[i-1], len(got), n, got[lo:hi]), c)
+				break
+			}
+		}
+		_ = pc.Close()
+		srv.Stop()
+		select {
+		case <-srv.Served:
+		case <-time.After(10 * time.Second):
+		}
+	}
+}
